@@ -172,6 +172,20 @@ SettingsFrom(bs, i, end, acc) ==
 
 SettingsParse(payload) == SettingsFrom(payload, 1, Len(payload), <<>>)
 
+RECURSIVE SettingDefects(_, _, _, _)
+\* every defect class present in a SETTINGS payload, scanning past defects:
+\* 262 = H3_FRAME_ERROR (truncated pair), 265 = H3_SETTINGS_ERROR (reserved or repeated id)
+SettingDefects(bs, i, seenIds, acc) ==
+  IF i > Len(bs) THEN acc
+  ELSE LET a == VarintAt(bs, i) IN
+    IF a.k = "more" THEN acc \cup {262}
+    ELSE LET b == VarintAt(bs, i + a.n) IN
+      IF b.k = "more" THEN acc \cup {262}
+      ELSE SettingDefects(bs, i + a.n + b.n,
+             IF SettingKept(a.val) THEN seenIds \cup {a.val} ELSE seenIds,
+             IF SettingReserved(a.val) \/ (SettingKept(a.val) /\ a.val \in seenIds)
+             THEN acc \cup {265} ELSE acc)
+
 (* ------------------------------ datagrams ------------------------------ *)
 \* RFC 9297 2.1: Quarter Stream ID (varint) then payload; the id must be <= 2^60-1
 DatagramParse(bs) ==
